@@ -991,3 +991,33 @@ CHECKS["C16"]["note"] = (
     'thorough; n=3 matrices and n=4 with >= 2 attributes are complete only over the reduced structure sets named in '
     'the evidence.'
 )
+
+CHECKS["C20"]["technique"] = (
+    'explicit-state BFS over edit / addition / option / library-folder / version / transfer_model histories, one '
+    'process and one folder per history, logical mtime clock'
+)
+
+CHECKS["C20"]["text"] = (
+    'All histories up to length 5 (quick) over: real transfer_model; rewrite P.mo (model P.Main), Part.mo (second '
+    'file of the model folder) and the library file with the other variant; add a .mo file that changes the '
+    'flattened model (a package shadowing one the model uses) to the model folder / a new subfolder of the library '
+    'folder; switch between 5 option sets (plain, detect_aliases, replace_constant_values, '
+    "eliminable_variable_expression 'a_.*' and 'b_.*'); point library_folders at another folder whose files are "
+    'later than the cache; switch the pymoca version. A history runs in one process on one folder path; the '
+    "abstract state includes what this process's cache code has been through (nothing / compiled / last load hit / "
+    'missed). Histories of maximal length end in transfer_model. Thorough: four explorations widening one dimension '
+    'each -- base alphabet + process restart (length 6); 18 option sets (every Boolean option switched away from '
+    'its default, both regular expressions, detect_aliases without derivative aliases; length 5); touch + six kinds '
+    'of added file (length 5); cache/codegen switch with expand_mx on a top-level wrapper class (length 5). Every '
+    'edit gets the next tick of a logical clock as mtime. Every transfer_model result must equal _compile_model of '
+    'the current sources and options, and a cache that was loaded must have been written for the current version '
+    'and options.'
+)
+
+CHECKS["C20"]["note"] = (
+    "mtime granularity is the logical tick; the premise 'edits are later than the cache' is built into the alphabet "
+    '(also for the folder library_folders is re-pointed at); mtime_check=False, re-pointing library_folders at '
+    'older files, removing / renaming files are outside the property. Per-process state of pymoca that is not keyed '
+    'by a folder, file or cache path could leak between histories evaluated by the same worker (each history has '
+    'its own path).'
+)
